@@ -46,6 +46,14 @@ def functions_for(pid):
     return sorted(out)
 
 
+def load_callgraph():
+    try:
+        with open(os.path.join(HERE, "callgraph.json")) as fh:
+            return json.load(fh)
+    except (OSError, ValueError):
+        return {}
+
+
 def included_for(pid):
     """functions a property also rests on, all of whose obligations count for it (props_meta `include`)"""
     from . import props_meta
@@ -139,11 +147,11 @@ def load_known():
         return json.load(fh)
 
 
-def match_known(known, pid, ob):
+def match_known(known, pid, ob, any_property=False):
     """a failing obligation / bounded failure is a known finding only if it is the listed obligation on the listed
     path (or with the listed observation / input): anything else of the same property is a fresh violation"""
     for f in known.get("findings", []):
-        if f.get("property") != pid:
+        if f.get("property") != pid and not any_property:
             continue
         if f.get("obligation") != ob["name"]:
             continue
@@ -172,10 +180,37 @@ def check_property(pid, tier="quick", seed=0, extra_checks=None):
         return 3
     _verify_one.pid = pid
     os.environ["VERIF_TIER_ACTIVE"] = tier
+    # A caller is verified against the contracts of its callees, so the property also rests on every callee honouring its
+    # whole contract: the function set is closed under "contract applied at a call site".  The closure is seeded from
+    # callgraph.json (a scheduling hint written by tools/sweep_all.py) and completed with what the run itself observes,
+    # so a change that introduces a new callee is still followed.
+    from .contracts import REGISTRY
+    direct = set(keys)
+    hint = load_callgraph()
+    todo = list(keys)
+    seen_keys = set(keys)
+    while todo:
+        k = todo.pop()
+        for c_ in hint.get(k, []):
+            if c_ in REGISTRY and c_ not in seen_keys and not getattr(REGISTRY[c_], "assumed", None):
+                seen_keys.add(c_)
+                todo.append(c_)
+    keys = sorted(seen_keys)
     results = run_functions(keys)
-    whole = set(included_for(pid))
+    for _round in range(6):
+        more = set()
+        for fr in results:
+            for c_ in fr.get("callees", []):
+                if c_ in REGISTRY and c_ not in seen_keys and not getattr(REGISTRY[c_], "assumed", None):
+                    more.add(c_)
+        if not more:
+            break
+        seen_keys |= more
+        results += run_functions(sorted(more))
+    whole = set(included_for(pid)) | (seen_keys - direct)
     n_obl = n_dis = 0
     violations, undecided, faults, known_hits = [], [], [], []
+    foreign = []
     samples = []
     fn_table = []
     solver_secs = 0.0
@@ -204,6 +239,11 @@ def check_property(pid, tier="quick", seed=0, extra_checks=None):
                                     "backend": ob["backend"], "secs": ob["secs"]})
             elif ob["status"] == "refuted":
                 kf = match_known(known, pid, ob)
+                if kf is None and fr["function"] in whole and match_known(known, pid, ob, any_property=True) is not None:
+                    # a callee's clause that fails under a finding listed for ANOTHER property: reported by that property's
+                    # check, only recorded here
+                    foreign.append({"obligation": ob["name"], "finding": match_known(known, pid, ob, any_property=True)["id"]})
+                    continue
                 if kf is not None:
                     known_hits.append((kf, ob))
                 else:
@@ -318,6 +358,7 @@ def check_property(pid, tier="quick", seed=0, extra_checks=None):
             "samples": samples,
             "known_findings": [{"id": kf["id"], "obligation": ob["name"], "what": kf["what"]} for kf, ob in known_hits],
             "undecided": [{"obligation": n, "reason": w[:300]} for n, w in undecided],
+            "callee_obligations_under_findings_of_other_properties": foreign,
             "bounded_stand_ins": extra_report,
             "explanation": meta.get("explanation", ""),
             "not_decided_clauses": meta.get("not_decided", []),
